@@ -95,3 +95,9 @@ check("C18", "exploration", "runtime monitoring on real loopback sockets: both e
       "at both ends.",
       "Trusted: the kernel's loopback TCP. Timing is used only as a lower bound (not before 0.8 x timeout); late firing is never a violation.",
       "DESIGN.md section 4 C18")
+check("C20", "exploration", "runtime monitoring through a fake usb1 backend injected via sys.modules: backend call log, endpoint/timeout/claim-order monitors, error injection at every transfer index, session oracle",
+      "The USB transport (never executed by the repository's suite) runs against a scripted libusb backend wired to the device simulator; every backend call is logged and "
+      "checked (claim before transfer, endpoint direction, millisecond timeouts, read sizes), backend errors are injected at every transfer index of a device session, and whole "
+      "scenarios through AdbDeviceUsb must equal the in-memory runs.",
+      "Trusted: vlib/fakeusb1.py as the specification of a conforming python-libusb1. Runs in its own process per shard because the module opens a USBContext at import.",
+      "DESIGN.md section 4 C20")
